@@ -79,3 +79,6 @@ Fixpoint keeps_up (hc : Z) (evs : list (bool * Z)) : Prop :=
   | (comp, ready) :: r =>
       (comp = true -> hc = 2 \/ (hc = 1 /\ ready <> 0)) /\ keeps_up (hnext hc comp ready) r
   end.
+(* the monitor's value after a run: 2 = the consumer has been ready at two edges since the last completion (nothing is waiting for it) *)
+Fixpoint hc_run (hc : Z) (evs : list (bool * Z)) : Z :=
+  match evs with [] => hc | (comp, ready) :: r => hc_run (hnext hc comp ready) r end.
